@@ -493,7 +493,12 @@ def parsePelFromPLID(path: str, config: Config):
             try:
                 eid, summary = parsePELSummary(stream, config)
                 if eid :
-                    if plid in summary['PLID']:
+                    # The PLID is displayed without leading zeroes
+                    # ("0x04"); compare the full 8 digit value.
+                    pelPLID = summary['PLID']
+                    if pelPLID[0:2] == "0x":
+                        pelPLID = pelPLID[2:]
+                    if plid == pelPLID.zfill(8):
                         if config.hex:
                             printPELInHexFormat(data)
                         else:
